@@ -1115,6 +1115,20 @@ func (env *SpecEnv) evalCall(x *SExpr) *SV {
 				ls = append(ls, e.heapGet(env.state(), fmt.Sprintf("G|$call:%s|%d", args[0].Name, i)))
 			}
 			return &SV{V: &Val{L: ls}, T: rt}
+		case "$idx":
+			// $idx(n): the range index of the function's n-th loop (for invariants of loops nested in it)
+			if len(args) == 1 && args[0].Op == "num" && env.fx != nil {
+				for _, l := range env.fx.loopList {
+					if fmt.Sprint(l.ord) == args[0].Name && l.idxAlloc != nil {
+						if cur, ok := env.state().locals[l.idxAlloc]; ok {
+							return mathSV(cur[0])
+						}
+						return mathSV("(- 1)")
+					}
+				}
+			}
+			env.errorf("$idx(n) needs the ordinal of a slice-range loop")
+			return mathSV("0")
 		case "selected":
 			k := "G|$selected|0"
 			e.regHeap(k, SInt, "selected", "G", nil)
